@@ -63,6 +63,10 @@ def build_inputs(tier):
     for _ in range(1200 * N):
         x, t, kinds = xonshgen.gen_subproc(r)
         cases.append(("gen", x, t, kinds))
+    # witnesses of the recorded findings and their neighbourhood: bracket groups inside words, keywords as words
+    for cmd in ["ls *.[ch] x", "echo a[0] b", "echo (a b) c", "echo [a   b]", "echo a(b c)d e", "echo {a,b}", "echo if x", "echo in", "grep for file", "echo a is b", "test x -a not"]:
+        exp = f"__xonsh__.subproc_captured({', '.join(repr(w) for w in split_independent(cmd))})"
+        cases.append(("plain", f"$({cmd})", exp, ["kf-neighbourhood"]))
     # plain-word-only commands checked against str.split()
     for _ in range(400 * N):
         n = r.randint(1, 6)
@@ -116,6 +120,16 @@ def build_inputs(tier):
 
 
 def classify(x, o):
+    """Known-finding classes, decided from the WRITTEN command (see known_findings.json)."""
+    import keyword
+    import re
+
+    inner = x[2:-1]
+    words = inner.split()
+    if o.get("kind") == "rejected" and any(keyword.iskeyword(w) for w in words):
+        return "KF-C06-keyword-as-word"
+    if o.get("kind") in ("args-differ", "word-boundaries", "word-span", "rejected") and re.search(r"[\[({]", inner.replace("@(", "").replace("$(", "").replace("$[", "").replace("${", "").replace("!(", "").replace("![", "").replace("@$(", "")):
+        return "KF-C06-bracket-group-in-word"
     return None
 
 
